@@ -7,7 +7,9 @@ set -u
 ROOT="$(cd "$(dirname "${BASH_SOURCE[0]}")" && pwd)"
 export VERIF_ROOT="$ROOT"
 export GOFLAGS=-mod=mod GOPROXY=off GOSUMDB=off GOTOOLCHAIN=local
-export GOCACHE="${GOCACHE:-$HOME/.cache/go-build}"
+if [ -z "${GOCACHE:-}" ]; then
+  if [ -n "${HOME:-}" ] && [ -d "$HOME" ]; then export GOCACHE="$HOME/.cache/go-build"; else export GOCACHE="$ROOT/work/gocache"; fi
+fi
 REPO="${VERIF_REPO:-/repo}"
 cd "$ROOT/harness" || exit 2
 mkdir -p "$ROOT/bin" "$ROOT/evidence" "$ROOT/replays" "$ROOT/work"
